@@ -135,23 +135,24 @@ def mc_codec(ctx, k):
     return vf.mc(ctx, "MC_Codec", cfg, workers=4 if ctx.quick else 8, timeout=1500, heap="4g" if ctx.quick else "8g", coverage=False)
 
 
-def gen_cases(ctx, binp, k, names, classes, tag, kk=None, big_limit=None, groups=None, sample_n=None):
+def gen_cases(ctx, binp, k, names, classes, tag, kk=None, big_limit=None, groups=None, sample_n=None, med_limit=None):
     """G-step: TLC derives the mutants (CodecMut) of the generator values and of seeded driver values of `names`."""
     import concurrent.futures as cf
     kk = kk or (3 if ctx.quick else 6)
     big_limit = big_limit or (700 if ctx.quick else 2500)
+    med_limit = med_limit or (200 if ctx.quick else 800)
     sample_n = sample_n if sample_n is not None else (3 if ctx.quick else 10)
     groups = groups or (4 if ctx.quick else 10)
     valp = ""
     if sample_n > 0:
         valp = os.path.join(ctx.tmp, "values-%s.ndjson" % tag)
         vf.run_driver(ctx, binp, "TestRun", env={"VF_MODE": "rt", "VF_OUT": valp, "VF_SEED": ctx.seed, "VF_TYPES": ",".join(names),
-                                                 "VF_N": sample_n, "VF_BYTES_PER_TYPE": 4 * big_limit}, timeout=600)
+                                                 "VF_N": sample_n, "VF_BYTES_PER_TYPE": 4 * med_limit}, timeout=600)
         # keep only what the generator needs (type, value, first encoding) and drop the huge ones
         keep = []
         for ln in vf.read_lines(valp):
             r = json.loads(ln)
-            if r["encs"] and len(r["encs"][0]) <= big_limit:
+            if r["encs"] and len(r["encs"][0]) <= med_limit:
                 keep.append(json.dumps({"ty": r["ty"], "v": r["v"], "encs": r["encs"][:1]}))
         with open(valp, "w") as f:
             f.write("\n".join(keep) + "\n")
@@ -161,7 +162,7 @@ def gen_cases(ctx, binp, k, names, classes, tag, kk=None, big_limit=None, groups
     def one(ix):
         c = dict(k)
         c.update({"ValuesFile": '"%s"' % valp, "Names": vf.tla_set(parts[ix]), "Classes": vf.tla_set(classes), "K": str(kk),
-                  "BigLimit": str(big_limit)})
+                  "BigLimit": str(big_limit), "MedLimit": str(med_limit)})
         return vf.gen_cases(ctx, "Codec_Gen", c, timeout=1500, heap="4g", tag="-%s-%d" % (tag, ix))
     with cf.ThreadPoolExecutor(max_workers=4 if ctx.quick else 6) as ex:
         outs = list(ex.map(one, range(len(parts))))
